@@ -16,6 +16,96 @@ class CachedPropertyClass:
         return isinstance(obj, PropertyValue) and obj.cached
 
 
+class LruWrapper:
+    """functools.lru_cache(...)(fn): a call returns the cached result of an *earlier* call with equal
+    arguments if there is one.  The verification starts from an arbitrary history, so unless the cache
+    was cleared in this run a call may be a hit; what a hit returns was computed in an earlier state of
+    the program: for a function whose arguments are all immutable values that is the same value, for
+    any other function (zero arguments = reads globals; mutable arguments) it is an arbitrary value of
+    the same kind as the function returns now."""
+
+    def __init__(self, fn, bound=None, state=None):
+        self.fn, self.bound = fn, bound
+        self.state = state if state is not None else {"cleared": False, "filled": []}
+
+    def pyvc_bind(self, interp, obj):
+        return LruWrapper(self.fn, obj, self.state)
+
+    def pyvc_getattr(self, interp, name):
+        if name == "cache_clear":
+            def clear(it, a, k):
+                self.state["cleared"] = True
+                self.state["filled"] = []
+
+            return Builtin("lru.cache_clear", clear)
+        if name in ("__wrapped__",):
+            return self.fn
+        raise Unsupported(f"lru_cache wrapper attribute {name}")
+
+    def pyvc_call(self, interp, args, kwargs):
+        from ..ctx import cur
+        from ..values import Arr, LocalObj, ObjRef
+
+        full = ([self.bound] if self.bound is not None else []) + list(args)
+        key = tuple(id(x) if not isinstance(x, (int, float, str, bool, type(None))) else x for x in full) + tuple(sorted((k, id(v)) for k, v in kwargs.items()))
+        for k0, r0 in self.state["filled"]:
+            if k0 == key:
+                return r0  # a hit on a value stored in this run
+        fresh = interp.call(self.fn, full, kwargs)
+        immutable = bool(full or kwargs) and all(isinstance(x, (int, float, str, bool, type(None))) for x in list(full) + list(kwargs.values()))
+        result = fresh
+        if not self.state["cleared"] and not immutable:
+            hit = T.fresh("lru_cache_hit_from_an_earlier_state", T.BOOL)
+            if cur().decide(hit, "lru_cache: an entry for these arguments exists from before"):
+                result = _arbitrary_like(fresh)
+        self.state["filled"].append((key, result))
+        return result
+
+
+def _arbitrary_like(v):
+    from ..values import LocalObj, ObjRef
+
+    if isinstance(v, ObjRef):
+        return ObjRef(T.fresh("stale", T.REF), v.classes, v.heap)
+    if isinstance(v, T.Term):
+        return T.fresh("stale", v.sort)
+    if isinstance(v, tuple):
+        return tuple(_arbitrary_like(x) for x in v)
+    if isinstance(v, (int, float, str, bool, type(None))):
+        return v
+    return StaleValue(type(v).__name__)
+
+
+class StaleValue:
+    """a result cached in an earlier state: only its identity can be asked (and differs, possibly)"""
+
+    def __init__(self, what):
+        self.what = what
+        self.same = {}
+
+    def pyvc_identical(self, interp, other):
+        k = id(other)
+        if k not in self.same:
+            self.same[k] = T.fresh("stale_is_same", T.BOOL)
+        return self.same[k]
+
+    def pyvc_is_none(self):
+        return False
+
+    def pyvc_getattr(self, interp, name):
+        raise Unsupported(f"use of a value cached by lru_cache in an earlier state ({self.what}.{name})")
+
+
+def _lru_cache(it, a, k):
+    if a and isinstance(a[0], FuncValue) and not k:
+        return LruWrapper(a[0])  # @lru_cache without parentheses
+
+    def deco(it2, a2, k2):
+        return LruWrapper(a2[0])
+
+    return Builtin("lru_cache.deco", deco)
+
+
 def _wraps(it, a, k):
     wrapped = a[0]
 
@@ -76,6 +166,8 @@ def make_modules():
     ft.ns["cached_property"] = CachedPropertyClass()
     ft.ns["wraps"] = Builtin("functools.wraps", _wraps)
     ft.ns["_lru_cache_wrapper"] = _TypingThing("_lru_cache_wrapper")
+    ft.ns["lru_cache"] = Builtin("functools.lru_cache", _lru_cache)
+    ft.ns["cache"] = Builtin("functools.cache", _lru_cache)
     itools = ModuleValue("itertools")
     itools.ns["chain"] = _ChainFn()
     itools.ns["product"] = Builtin("itertools.product", _product)
